@@ -21,13 +21,6 @@ type comparison =
 | Lt
 | Gt
 
-(** val compOpp : comparison -> comparison **)
-
-let compOpp = function
-| Eq -> Eq
-| Lt -> Gt
-| Gt -> Lt
-
 module Coq__1 = struct
  (** val add : nat -> nat -> nat **)
  let rec add n0 m =
@@ -37,28 +30,26 @@ module Coq__1 = struct
 end
 include Coq__1
 
-(** val nth : nat -> 'a1 list -> 'a1 -> 'a1 **)
+(** val flat_map : ('a1 -> 'a2 list) -> 'a1 list -> 'a2 list **)
 
-let rec nth n0 l default =
+let rec flat_map f = function
+| [] -> []
+| x :: t -> app (f x) (flat_map f t)
+
+(** val existsb : ('a1 -> bool) -> 'a1 list -> bool **)
+
+let rec existsb f = function
+| [] -> false
+| a :: l0 -> (||) (f a) (existsb f l0)
+
+(** val firstn : nat -> 'a1 list -> 'a1 list **)
+
+let rec firstn n0 l =
   match n0 with
-  | O -> (match l with
-          | [] -> default
-          | x :: _ -> x)
-  | S m -> (match l with
-            | [] -> default
-            | _ :: t -> nth m t default)
-
-(** val rev : 'a1 list -> 'a1 list **)
-
-let rec rev = function
-| [] -> []
-| x :: l' -> app (rev l') (x :: [])
-
-(** val map : ('a1 -> 'a2) -> 'a1 list -> 'a2 list **)
-
-let rec map f = function
-| [] -> []
-| a :: t -> (f a) :: (map f t)
+  | O -> []
+  | S n1 -> (match l with
+             | [] -> []
+             | a :: l0 -> a :: (firstn n1 l0))
 
 (** val skipn : nat -> 'a1 list -> 'a1 list **)
 
@@ -68,18 +59,6 @@ let rec skipn n0 l =
   | S n1 -> (match l with
              | [] -> []
              | _ :: l0 -> skipn n1 l0)
-
-(** val seq : nat -> nat -> nat list **)
-
-let rec seq start = function
-| O -> []
-| S len0 -> start :: (seq (S start) len0)
-
-(** val repeat : 'a1 -> nat -> 'a1 list **)
-
-let rec repeat x = function
-| O -> []
-| S k -> x :: (repeat x k)
 
 type positive =
 | XI of positive
@@ -96,6 +75,14 @@ type z =
 | Zneg of positive
 
 module Pos =
+ struct
+  type mask =
+  | IsNul
+  | IsPos of positive
+  | IsNeg
+ end
+
+module Coq_Pos =
  struct
   (** val succ : positive -> positive **)
 
@@ -150,12 +137,64 @@ module Pos =
   | XO p -> XI (pred_double p)
   | XH -> XH
 
-  (** val pred_N : positive -> n **)
+  type mask = Pos.mask =
+  | IsNul
+  | IsPos of positive
+  | IsNeg
 
-  let pred_N = function
-  | XI p -> Npos (XO p)
-  | XO p -> Npos (pred_double p)
-  | XH -> N0
+  (** val succ_double_mask : mask -> mask **)
+
+  let succ_double_mask = function
+  | IsNul -> IsPos XH
+  | IsPos p -> IsPos (XI p)
+  | IsNeg -> IsNeg
+
+  (** val double_mask : mask -> mask **)
+
+  let double_mask = function
+  | IsPos p -> IsPos (XO p)
+  | x0 -> x0
+
+  (** val double_pred_mask : positive -> mask **)
+
+  let double_pred_mask = function
+  | XI p -> IsPos (XO (XO p))
+  | XO p -> IsPos (XO (pred_double p))
+  | XH -> IsNul
+
+  (** val sub_mask : positive -> positive -> mask **)
+
+  let rec sub_mask x y =
+    match x with
+    | XI p ->
+      (match y with
+       | XI q -> double_mask (sub_mask p q)
+       | XO q -> succ_double_mask (sub_mask p q)
+       | XH -> IsPos (XO p))
+    | XO p ->
+      (match y with
+       | XI q -> succ_double_mask (sub_mask_carry p q)
+       | XO q -> double_mask (sub_mask p q)
+       | XH -> IsPos (pred_double p))
+    | XH -> (match y with
+             | XH -> IsNul
+             | _ -> IsNeg)
+
+  (** val sub_mask_carry : positive -> positive -> mask **)
+
+  and sub_mask_carry x y =
+    match x with
+    | XI p ->
+      (match y with
+       | XI q -> succ_double_mask (sub_mask_carry p q)
+       | XO q -> double_mask (sub_mask p q)
+       | XH -> IsPos (pred_double p))
+    | XO p ->
+      (match y with
+       | XI q -> double_mask (sub_mask_carry p q)
+       | XO q -> succ_double_mask (sub_mask_carry p q)
+       | XH -> double_pred_mask p)
+    | XH -> IsNeg
 
   (** val mul : positive -> positive -> positive **)
 
@@ -164,27 +203,6 @@ module Pos =
     | XI p -> add y (XO (mul p y))
     | XO p -> XO (mul p y)
     | XH -> y
-
-  (** val iter : ('a1 -> 'a1) -> 'a1 -> positive -> 'a1 **)
-
-  let rec iter f x = function
-  | XI n' -> f (iter f (iter f x n') n')
-  | XO n' -> iter f (iter f x n') n'
-  | XH -> f x
-
-  (** val div2 : positive -> positive **)
-
-  let div2 = function
-  | XI p0 -> p0
-  | XO p0 -> p0
-  | XH -> XH
-
-  (** val div2_up : positive -> positive **)
-
-  let div2_up = function
-  | XI p0 -> succ p0
-  | XO p0 -> p0
-  | XH -> XH
 
   (** val compare_cont : comparison -> positive -> positive -> comparison **)
 
@@ -223,72 +241,6 @@ module Pos =
              | XH -> true
              | _ -> false)
 
-  (** val coq_Nsucc_double : n -> n **)
-
-  let coq_Nsucc_double = function
-  | N0 -> Npos XH
-  | Npos p -> Npos (XI p)
-
-  (** val coq_Ndouble : n -> n **)
-
-  let coq_Ndouble = function
-  | N0 -> N0
-  | Npos p -> Npos (XO p)
-
-  (** val coq_lor : positive -> positive -> positive **)
-
-  let rec coq_lor p q =
-    match p with
-    | XI p0 ->
-      (match q with
-       | XI q0 -> XI (coq_lor p0 q0)
-       | XO q0 -> XI (coq_lor p0 q0)
-       | XH -> p)
-    | XO p0 ->
-      (match q with
-       | XI q0 -> XI (coq_lor p0 q0)
-       | XO q0 -> XO (coq_lor p0 q0)
-       | XH -> XI p0)
-    | XH -> (match q with
-             | XO q0 -> XI q0
-             | _ -> q)
-
-  (** val coq_land : positive -> positive -> n **)
-
-  let rec coq_land p q =
-    match p with
-    | XI p0 ->
-      (match q with
-       | XI q0 -> coq_Nsucc_double (coq_land p0 q0)
-       | XO q0 -> coq_Ndouble (coq_land p0 q0)
-       | XH -> Npos XH)
-    | XO p0 ->
-      (match q with
-       | XI q0 -> coq_Ndouble (coq_land p0 q0)
-       | XO q0 -> coq_Ndouble (coq_land p0 q0)
-       | XH -> N0)
-    | XH -> (match q with
-             | XO _ -> N0
-             | _ -> Npos XH)
-
-  (** val ldiff : positive -> positive -> n **)
-
-  let rec ldiff p q =
-    match p with
-    | XI p0 ->
-      (match q with
-       | XI q0 -> coq_Ndouble (ldiff p0 q0)
-       | XO q0 -> coq_Nsucc_double (ldiff p0 q0)
-       | XH -> Npos (XO p0))
-    | XO p0 ->
-      (match q with
-       | XI q0 -> coq_Ndouble (ldiff p0 q0)
-       | XO q0 -> coq_Ndouble (ldiff p0 q0)
-       | XH -> Npos p)
-    | XH -> (match q with
-             | XO _ -> Npos XH
-             | _ -> N0)
-
   (** val iter_op : ('a1 -> 'a1 -> 'a1) -> positive -> 'a1 -> 'a1 **)
 
   let rec iter_op op p a =
@@ -311,12 +263,6 @@ module Pos =
 
 module N =
  struct
-  (** val succ_pos : n -> positive **)
-
-  let succ_pos = function
-  | N0 -> XH
-  | Npos p -> Pos.succ p
-
   (** val add : n -> n -> n **)
 
   let add n0 m =
@@ -324,7 +270,20 @@ module N =
     | N0 -> m
     | Npos p -> (match m with
                  | N0 -> n0
-                 | Npos q -> Npos (Pos.add p q))
+                 | Npos q -> Npos (Coq_Pos.add p q))
+
+  (** val sub : n -> n -> n **)
+
+  let sub n0 m =
+    match n0 with
+    | N0 -> N0
+    | Npos n' ->
+      (match m with
+       | N0 -> n0
+       | Npos m' ->
+         (match Coq_Pos.sub_mask n' m' with
+          | Coq_Pos.IsPos p -> Npos p
+          | _ -> N0))
 
   (** val mul : n -> n -> n **)
 
@@ -333,181 +292,72 @@ module N =
     | N0 -> N0
     | Npos p -> (match m with
                  | N0 -> N0
-                 | Npos q -> Npos (Pos.mul p q))
+                 | Npos q -> Npos (Coq_Pos.mul p q))
 
-  (** val coq_lor : n -> n -> n **)
+  (** val compare : n -> n -> comparison **)
 
-  let coq_lor n0 m =
+  let compare n0 m =
     match n0 with
-    | N0 -> m
-    | Npos p -> (match m with
-                 | N0 -> n0
-                 | Npos q -> Npos (Pos.coq_lor p q))
+    | N0 -> (match m with
+             | N0 -> Eq
+             | Npos _ -> Lt)
+    | Npos n' -> (match m with
+                  | N0 -> Gt
+                  | Npos m' -> Coq_Pos.compare n' m')
 
-  (** val ldiff : n -> n -> n **)
+  (** val eqb : n -> n -> bool **)
 
-  let ldiff n0 m =
+  let eqb n0 m =
     match n0 with
-    | N0 -> N0
+    | N0 -> (match m with
+             | N0 -> true
+             | Npos _ -> false)
     | Npos p -> (match m with
-                 | N0 -> n0
-                 | Npos q -> Pos.ldiff p q)
+                 | N0 -> false
+                 | Npos q -> Coq_Pos.eqb p q)
 
-  (** val to_nat : n -> nat **)
-
-  let to_nat = function
-  | N0 -> O
-  | Npos p -> Pos.to_nat p
-
-  (** val of_nat : nat -> n **)
-
-  let of_nat = function
-  | O -> N0
-  | S n' -> Npos (Pos.of_succ_nat n')
- end
-
-module Z =
- struct
-  (** val double : z -> z **)
-
-  let double = function
-  | Z0 -> Z0
-  | Zpos p -> Zpos (XO p)
-  | Zneg p -> Zneg (XO p)
-
-  (** val succ_double : z -> z **)
-
-  let succ_double = function
-  | Z0 -> Zpos XH
-  | Zpos p -> Zpos (XI p)
-  | Zneg p -> Zneg (Pos.pred_double p)
-
-  (** val pred_double : z -> z **)
-
-  let pred_double = function
-  | Z0 -> Zneg XH
-  | Zpos p -> Zpos (Pos.pred_double p)
-  | Zneg p -> Zneg (XI p)
-
-  (** val pos_sub : positive -> positive -> z **)
-
-  let rec pos_sub x y =
-    match x with
-    | XI p ->
-      (match y with
-       | XI q -> double (pos_sub p q)
-       | XO q -> succ_double (pos_sub p q)
-       | XH -> Zpos (XO p))
-    | XO p ->
-      (match y with
-       | XI q -> pred_double (pos_sub p q)
-       | XO q -> double (pos_sub p q)
-       | XH -> Zpos (Pos.pred_double p))
-    | XH ->
-      (match y with
-       | XI q -> Zneg (XO q)
-       | XO q -> Zneg (Pos.pred_double q)
-       | XH -> Z0)
-
-  (** val add : z -> z -> z **)
-
-  let add x y =
-    match x with
-    | Z0 -> y
-    | Zpos x' ->
-      (match y with
-       | Z0 -> x
-       | Zpos y' -> Zpos (Pos.add x' y')
-       | Zneg y' -> pos_sub x' y')
-    | Zneg x' ->
-      (match y with
-       | Z0 -> x
-       | Zpos y' -> pos_sub y' x'
-       | Zneg y' -> Zneg (Pos.add x' y'))
-
-  (** val opp : z -> z **)
-
-  let opp = function
-  | Z0 -> Z0
-  | Zpos x0 -> Zneg x0
-  | Zneg x0 -> Zpos x0
-
-  (** val sub : z -> z -> z **)
-
-  let sub m n0 =
-    add m (opp n0)
-
-  (** val mul : z -> z -> z **)
-
-  let mul x y =
-    match x with
-    | Z0 -> Z0
-    | Zpos x' ->
-      (match y with
-       | Z0 -> Z0
-       | Zpos y' -> Zpos (Pos.mul x' y')
-       | Zneg y' -> Zneg (Pos.mul x' y'))
-    | Zneg x' ->
-      (match y with
-       | Z0 -> Z0
-       | Zpos y' -> Zneg (Pos.mul x' y')
-       | Zneg y' -> Zpos (Pos.mul x' y'))
-
-  (** val pow_pos : z -> positive -> z **)
-
-  let pow_pos z0 =
-    Pos.iter (mul z0) (Zpos XH)
-
-  (** val pow : z -> z -> z **)
-
-  let pow x = function
-  | Z0 -> Zpos XH
-  | Zpos p -> pow_pos x p
-  | Zneg _ -> Z0
-
-  (** val compare : z -> z -> comparison **)
-
-  let compare x y =
-    match x with
-    | Z0 -> (match y with
-             | Z0 -> Eq
-             | Zpos _ -> Lt
-             | Zneg _ -> Gt)
-    | Zpos x' -> (match y with
-                  | Zpos y' -> Pos.compare x' y'
-                  | _ -> Gt)
-    | Zneg x' ->
-      (match y with
-       | Zneg y' -> compOpp (Pos.compare x' y')
-       | _ -> Lt)
-
-  (** val leb : z -> z -> bool **)
-
-  let leb x y =
-    match compare x y with
-    | Gt -> false
-    | _ -> true
-
-  (** val ltb : z -> z -> bool **)
+  (** val ltb : n -> n -> bool **)
 
   let ltb x y =
     match compare x y with
     | Lt -> true
     | _ -> false
 
-  (** val geb : z -> z -> bool **)
+  (** val min : n -> n -> n **)
 
-  let geb x y =
-    match compare x y with
-    | Lt -> false
-    | _ -> true
+  let min n0 n' =
+    match compare n0 n' with
+    | Gt -> n'
+    | _ -> n0
 
-  (** val gtb : z -> z -> bool **)
+  (** val max : n -> n -> n **)
 
-  let gtb x y =
-    match compare x y with
-    | Gt -> true
-    | _ -> false
+  let max n0 n' =
+    match compare n0 n' with
+    | Gt -> n0
+    | _ -> n'
+
+  (** val to_nat : n -> nat **)
+
+  let to_nat = function
+  | N0 -> O
+  | Npos p -> Coq_Pos.to_nat p
+
+  (** val of_nat : nat -> n **)
+
+  let of_nat = function
+  | O -> N0
+  | S n' -> Npos (Coq_Pos.of_succ_nat n')
+ end
+
+module Z =
+ struct
+  (** val opp : z -> z **)
+
+  let opp = function
+  | Z0 -> Z0
+  | Zpos x0 -> Zneg x0
+  | Zneg x0 -> Zpos x0
 
   (** val eqb : z -> z -> bool **)
 
@@ -517,16 +367,16 @@ module Z =
              | Z0 -> true
              | _ -> false)
     | Zpos p -> (match y with
-                 | Zpos q -> Pos.eqb p q
+                 | Zpos q -> Coq_Pos.eqb p q
                  | _ -> false)
     | Zneg p -> (match y with
-                 | Zneg q -> Pos.eqb p q
+                 | Zneg q -> Coq_Pos.eqb p q
                  | _ -> false)
 
   (** val to_nat : z -> nat **)
 
   let to_nat = function
-  | Zpos p -> Pos.to_nat p
+  | Zpos p -> Coq_Pos.to_nat p
   | _ -> O
 
   (** val to_N : z -> n **)
@@ -539,565 +389,710 @@ module Z =
 
   let of_nat = function
   | O -> Z0
-  | S n1 -> Zpos (Pos.of_succ_nat n1)
+  | S n1 -> Zpos (Coq_Pos.of_succ_nat n1)
 
   (** val of_N : n -> z **)
 
   let of_N = function
   | N0 -> Z0
   | Npos p -> Zpos p
-
-  (** val pos_div_eucl : positive -> z -> z * z **)
-
-  let rec pos_div_eucl a b =
-    match a with
-    | XI a' ->
-      let (q, r) = pos_div_eucl a' b in
-      let r' = add (mul (Zpos (XO XH)) r) (Zpos XH) in
-      if ltb r' b
-      then ((mul (Zpos (XO XH)) q), r')
-      else ((add (mul (Zpos (XO XH)) q) (Zpos XH)), (sub r' b))
-    | XO a' ->
-      let (q, r) = pos_div_eucl a' b in
-      let r' = mul (Zpos (XO XH)) r in
-      if ltb r' b
-      then ((mul (Zpos (XO XH)) q), r')
-      else ((add (mul (Zpos (XO XH)) q) (Zpos XH)), (sub r' b))
-    | XH -> if leb (Zpos (XO XH)) b then (Z0, (Zpos XH)) else ((Zpos XH), Z0)
-
-  (** val div_eucl : z -> z -> z * z **)
-
-  let div_eucl a b =
-    match a with
-    | Z0 -> (Z0, Z0)
-    | Zpos a' ->
-      (match b with
-       | Z0 -> (Z0, a)
-       | Zpos _ -> pos_div_eucl a' b
-       | Zneg b' ->
-         let (q, r) = pos_div_eucl a' (Zpos b') in
-         (match r with
-          | Z0 -> ((opp q), Z0)
-          | _ -> ((opp (add q (Zpos XH))), (add b r))))
-    | Zneg a' ->
-      (match b with
-       | Z0 -> (Z0, a)
-       | Zpos _ ->
-         let (q, r) = pos_div_eucl a' b in
-         (match r with
-          | Z0 -> ((opp q), Z0)
-          | _ -> ((opp (add q (Zpos XH))), (sub b r)))
-       | Zneg b' -> let (q, r) = pos_div_eucl a' (Zpos b') in (q, (opp r)))
-
-  (** val div : z -> z -> z **)
-
-  let div a b =
-    let (q, _) = div_eucl a b in q
-
-  (** val modulo : z -> z -> z **)
-
-  let modulo a b =
-    let (_, r) = div_eucl a b in r
-
-  (** val div2 : z -> z **)
-
-  let div2 = function
-  | Z0 -> Z0
-  | Zpos p -> (match p with
-               | XH -> Z0
-               | _ -> Zpos (Pos.div2 p))
-  | Zneg p -> Zneg (Pos.div2_up p)
-
-  (** val shiftl : z -> z -> z **)
-
-  let shiftl a = function
-  | Z0 -> a
-  | Zpos p -> Pos.iter (mul (Zpos (XO XH))) a p
-  | Zneg p -> Pos.iter div2 a p
-
-  (** val shiftr : z -> z -> z **)
-
-  let shiftr a n0 =
-    shiftl a (opp n0)
-
-  (** val coq_land : z -> z -> z **)
-
-  let coq_land a b =
-    match a with
-    | Z0 -> Z0
-    | Zpos a0 ->
-      (match b with
-       | Z0 -> Z0
-       | Zpos b0 -> of_N (Pos.coq_land a0 b0)
-       | Zneg b0 -> of_N (N.ldiff (Npos a0) (Pos.pred_N b0)))
-    | Zneg a0 ->
-      (match b with
-       | Z0 -> Z0
-       | Zpos b0 -> of_N (N.ldiff (Npos b0) (Pos.pred_N a0))
-       | Zneg b0 ->
-         Zneg (N.succ_pos (N.coq_lor (Pos.pred_N a0) (Pos.pred_N b0))))
  end
 
-(** val wrap32 : z -> z **)
+(** val kMagicSize : n **)
 
-let wrap32 z0 =
-  Z.sub
-    (Z.modulo
-      (Z.add z0 (Zpos (XO (XO (XO (XO (XO (XO (XO (XO (XO (XO (XO (XO (XO (XO
-        (XO (XO (XO (XO (XO (XO (XO (XO (XO (XO (XO (XO (XO (XO (XO (XO (XO
-        XH))))))))))))))))))))))))))))))))) (Zpos (XO (XO (XO (XO (XO (XO (XO
-      (XO (XO (XO (XO (XO (XO (XO (XO (XO (XO (XO (XO (XO (XO (XO (XO (XO (XO
-      (XO (XO (XO (XO (XO (XO (XO XH)))))))))))))))))))))))))))))))))) (Zpos
-    (XO (XO (XO (XO (XO (XO (XO (XO (XO (XO (XO (XO (XO (XO (XO (XO (XO (XO
-    (XO (XO (XO (XO (XO (XO (XO (XO (XO (XO (XO (XO (XO
-    XH))))))))))))))))))))))))))))))))
+let kMagicSize =
+  Npos (XO (XI XH))
 
-(** val tABLE : z list **)
+(** val kInputBuffer : n **)
 
-let tABLE =
-  (Zpos (XI (XO (XO (XO (XO (XO XH))))))) :: ((Zpos (XO (XI (XO (XO (XO (XO
-    XH))))))) :: ((Zpos (XI (XI (XO (XO (XO (XO XH))))))) :: ((Zpos (XO (XO
-    (XI (XO (XO (XO XH))))))) :: ((Zpos (XI (XO (XI (XO (XO (XO
-    XH))))))) :: ((Zpos (XO (XI (XI (XO (XO (XO XH))))))) :: ((Zpos (XI (XI
-    (XI (XO (XO (XO XH))))))) :: ((Zpos (XO (XO (XO (XI (XO (XO
-    XH))))))) :: ((Zpos (XI (XO (XO (XI (XO (XO XH))))))) :: ((Zpos (XO (XI
-    (XO (XI (XO (XO XH))))))) :: ((Zpos (XI (XI (XO (XI (XO (XO
-    XH))))))) :: ((Zpos (XO (XO (XI (XI (XO (XO XH))))))) :: ((Zpos (XI (XO
-    (XI (XI (XO (XO XH))))))) :: ((Zpos (XO (XI (XI (XI (XO (XO
-    XH))))))) :: ((Zpos (XI (XI (XI (XI (XO (XO XH))))))) :: ((Zpos (XO (XO
-    (XO (XO (XI (XO XH))))))) :: ((Zpos (XI (XO (XO (XO (XI (XO
-    XH))))))) :: ((Zpos (XO (XI (XO (XO (XI (XO XH))))))) :: ((Zpos (XI (XI
-    (XO (XO (XI (XO XH))))))) :: ((Zpos (XO (XO (XI (XO (XI (XO
-    XH))))))) :: ((Zpos (XI (XO (XI (XO (XI (XO XH))))))) :: ((Zpos (XO (XI
-    (XI (XO (XI (XO XH))))))) :: ((Zpos (XI (XI (XI (XO (XI (XO
-    XH))))))) :: ((Zpos (XO (XO (XO (XI (XI (XO XH))))))) :: ((Zpos (XI (XO
+let kInputBuffer =
+  Npos (XO (XO (XO (XO (XO (XO (XO (XO (XO (XO (XO (XO (XO (XO
+    XH))))))))))))))
+
+(** val gz_kMinOutput : n **)
+
+let gz_kMinOutput =
+  Npos (XO (XI XH))
+
+(** val bz_kMinOutput : n **)
+
+let bz_kMinOutput =
+  Npos XH
+
+(** val compressed_buffer : n **)
+
+let compressed_buffer =
+  Npos (XO (XO (XO (XO (XO (XO (XO (XO (XO (XO (XO (XO XH))))))))))))
+
+(** val kSizeMax : n **)
+
+let kSizeMax =
+  Npos (XI (XI (XI (XI (XI (XI (XI (XI (XI (XI (XI (XI (XI (XI (XI (XI (XI
+    (XI (XI (XI (XI (XI (XI (XI (XI (XI (XI (XI (XI (XI (XI
+    XH)))))))))))))))))))))))))))))))
+
+(** val gzc_initial : n **)
+
+let gzc_initial =
+  Npos (XO (XO (XO (XO (XO (XO (XO (XO (XO (XO (XO (XO XH))))))))))))
+
+(** val gzc_increment : n **)
+
+let gzc_increment =
+  Npos (XO (XO (XO (XO (XO (XO (XO (XO (XO (XO (XO (XO XH))))))))))))
+
+(** val dirty_initial : bool **)
+
+let dirty_initial =
+  true
+
+(** val bz_read_stall_check : bool **)
+
+let bz_read_stall_check =
+  true
+
+(** val gz_magic : z list **)
+
+let gz_magic =
+  (Zpos (XI (XI (XI (XI XH))))) :: ((Zpos (XI (XI (XO (XI (XO (XO (XO
+    XH)))))))) :: [])
+
+(** val bz_magic : z list **)
+
+let bz_magic =
+  (Zpos (XO (XI (XO (XO (XO (XO XH))))))) :: ((Zpos (XO (XI (XO (XI (XI (XO
+    XH))))))) :: ((Zpos (XO (XO (XO (XI (XO (XI XH))))))) :: []))
+
+(** val xz_magic : z list **)
+
+let xz_magic =
+  (Zpos (XI (XO (XI (XI (XI (XI (XI XH)))))))) :: ((Zpos (XI (XI (XI (XO (XI
+    XH)))))) :: ((Zpos (XO (XI (XO (XI (XI (XI XH))))))) :: ((Zpos (XO (XO
     (XO (XI (XI (XO XH))))))) :: ((Zpos (XO (XI (XO (XI (XI (XO
-    XH))))))) :: ((Zpos (XI (XO (XO (XO (XO (XI XH))))))) :: ((Zpos (XO (XI
-    (XO (XO (XO (XI XH))))))) :: ((Zpos (XI (XI (XO (XO (XO (XI
-    XH))))))) :: ((Zpos (XO (XO (XI (XO (XO (XI XH))))))) :: ((Zpos (XI (XO
-    (XI (XO (XO (XI XH))))))) :: ((Zpos (XO (XI (XI (XO (XO (XI
-    XH))))))) :: ((Zpos (XI (XI (XI (XO (XO (XI XH))))))) :: ((Zpos (XO (XO
-    (XO (XI (XO (XI XH))))))) :: ((Zpos (XI (XO (XO (XI (XO (XI
-    XH))))))) :: ((Zpos (XO (XI (XO (XI (XO (XI XH))))))) :: ((Zpos (XI (XI
-    (XO (XI (XO (XI XH))))))) :: ((Zpos (XO (XO (XI (XI (XO (XI
-    XH))))))) :: ((Zpos (XI (XO (XI (XI (XO (XI XH))))))) :: ((Zpos (XO (XI
-    (XI (XI (XO (XI XH))))))) :: ((Zpos (XI (XI (XI (XI (XO (XI
-    XH))))))) :: ((Zpos (XO (XO (XO (XO (XI (XI XH))))))) :: ((Zpos (XI (XO
-    (XO (XO (XI (XI XH))))))) :: ((Zpos (XO (XI (XO (XO (XI (XI
-    XH))))))) :: ((Zpos (XI (XI (XO (XO (XI (XI XH))))))) :: ((Zpos (XO (XO
-    (XI (XO (XI (XI XH))))))) :: ((Zpos (XI (XO (XI (XO (XI (XI
-    XH))))))) :: ((Zpos (XO (XI (XI (XO (XI (XI XH))))))) :: ((Zpos (XI (XI
-    (XI (XO (XI (XI XH))))))) :: ((Zpos (XO (XO (XO (XI (XI (XI
-    XH))))))) :: ((Zpos (XI (XO (XO (XI (XI (XI XH))))))) :: ((Zpos (XO (XI
-    (XO (XI (XI (XI XH))))))) :: ((Zpos (XO (XO (XO (XO (XI
-    XH)))))) :: ((Zpos (XI (XO (XO (XO (XI XH)))))) :: ((Zpos (XO (XI (XO (XO
-    (XI XH)))))) :: ((Zpos (XI (XI (XO (XO (XI XH)))))) :: ((Zpos (XO (XO (XI
-    (XO (XI XH)))))) :: ((Zpos (XI (XO (XI (XO (XI XH)))))) :: ((Zpos (XO (XI
-    (XI (XO (XI XH)))))) :: ((Zpos (XI (XI (XI (XO (XI XH)))))) :: ((Zpos (XO
-    (XO (XO (XI (XI XH)))))) :: ((Zpos (XI (XO (XO (XI (XI XH)))))) :: ((Zpos
-    (XI (XI (XO (XI (XO XH)))))) :: ((Zpos (XI (XI (XI (XI (XO
-    XH)))))) :: [])))))))))))))))))))))))))))))))))))))))))))))))))))))))))))))))
+    XH))))))) :: (Z0 :: [])))))
 
-(** val iNV_TABLE : z list **)
+(** val bZ_FINISH : z **)
 
-let iNV_TABLE =
-  (Zneg XH) :: ((Zneg XH) :: ((Zneg XH) :: ((Zneg XH) :: ((Zneg XH) :: ((Zneg
-    XH) :: ((Zneg XH) :: ((Zneg XH) :: ((Zneg XH) :: ((Zneg XH) :: ((Zneg
-    XH) :: ((Zneg XH) :: ((Zneg XH) :: ((Zneg XH) :: ((Zneg XH) :: ((Zneg
-    XH) :: ((Zneg XH) :: ((Zneg XH) :: ((Zneg XH) :: ((Zneg XH) :: ((Zneg
-    XH) :: ((Zneg XH) :: ((Zneg XH) :: ((Zneg XH) :: ((Zneg XH) :: ((Zneg
-    XH) :: ((Zneg XH) :: ((Zneg XH) :: ((Zneg XH) :: ((Zneg XH) :: ((Zneg
-    XH) :: ((Zneg XH) :: ((Zneg XH) :: ((Zneg XH) :: ((Zneg XH) :: ((Zneg
-    XH) :: ((Zneg XH) :: ((Zneg XH) :: ((Zneg XH) :: ((Zneg XH) :: ((Zneg
-    XH) :: ((Zneg XH) :: ((Zneg XH) :: ((Zpos (XO (XI (XI (XI (XI
-    XH)))))) :: ((Zneg XH) :: ((Zneg XH) :: ((Zneg XH) :: ((Zpos (XI (XI (XI
-    (XI (XI XH)))))) :: ((Zpos (XO (XO (XI (XO (XI XH)))))) :: ((Zpos (XI (XO
-    (XI (XO (XI XH)))))) :: ((Zpos (XO (XI (XI (XO (XI XH)))))) :: ((Zpos (XI
-    (XI (XI (XO (XI XH)))))) :: ((Zpos (XO (XO (XO (XI (XI XH)))))) :: ((Zpos
-    (XI (XO (XO (XI (XI XH)))))) :: ((Zpos (XO (XI (XO (XI (XI
-    XH)))))) :: ((Zpos (XI (XI (XO (XI (XI XH)))))) :: ((Zpos (XO (XO (XI (XI
-    (XI XH)))))) :: ((Zpos (XI (XO (XI (XI (XI XH)))))) :: ((Zneg
-    XH) :: ((Zneg XH) :: ((Zneg XH) :: ((Zneg XH) :: ((Zneg XH) :: ((Zneg
-    XH) :: ((Zneg XH) :: (Z0 :: ((Zpos XH) :: ((Zpos (XO XH)) :: ((Zpos (XI
-    XH)) :: ((Zpos (XO (XO XH))) :: ((Zpos (XI (XO XH))) :: ((Zpos (XO (XI
-    XH))) :: ((Zpos (XI (XI XH))) :: ((Zpos (XO (XO (XO XH)))) :: ((Zpos (XI
-    (XO (XO XH)))) :: ((Zpos (XO (XI (XO XH)))) :: ((Zpos (XI (XI (XO
-    XH)))) :: ((Zpos (XO (XO (XI XH)))) :: ((Zpos (XI (XO (XI
-    XH)))) :: ((Zpos (XO (XI (XI XH)))) :: ((Zpos (XI (XI (XI
-    XH)))) :: ((Zpos (XO (XO (XO (XO XH))))) :: ((Zpos (XI (XO (XO (XO
-    XH))))) :: ((Zpos (XO (XI (XO (XO XH))))) :: ((Zpos (XI (XI (XO (XO
-    XH))))) :: ((Zpos (XO (XO (XI (XO XH))))) :: ((Zpos (XI (XO (XI (XO
-    XH))))) :: ((Zpos (XO (XI (XI (XO XH))))) :: ((Zpos (XI (XI (XI (XO
-    XH))))) :: ((Zpos (XO (XO (XO (XI XH))))) :: ((Zpos (XI (XO (XO (XI
-    XH))))) :: ((Zneg XH) :: ((Zneg XH) :: ((Zneg XH) :: ((Zneg XH) :: ((Zneg
-    XH) :: ((Zneg XH) :: ((Zpos (XO (XI (XO (XI XH))))) :: ((Zpos (XI (XI (XO
-    (XI XH))))) :: ((Zpos (XO (XO (XI (XI XH))))) :: ((Zpos (XI (XO (XI (XI
-    XH))))) :: ((Zpos (XO (XI (XI (XI XH))))) :: ((Zpos (XI (XI (XI (XI
-    XH))))) :: ((Zpos (XO (XO (XO (XO (XO XH)))))) :: ((Zpos (XI (XO (XO (XO
-    (XO XH)))))) :: ((Zpos (XO (XI (XO (XO (XO XH)))))) :: ((Zpos (XI (XI (XO
-    (XO (XO XH)))))) :: ((Zpos (XO (XO (XI (XO (XO XH)))))) :: ((Zpos (XI (XO
-    (XI (XO (XO XH)))))) :: ((Zpos (XO (XI (XI (XO (XO XH)))))) :: ((Zpos (XI
-    (XI (XI (XO (XO XH)))))) :: ((Zpos (XO (XO (XO (XI (XO XH)))))) :: ((Zpos
-    (XI (XO (XO (XI (XO XH)))))) :: ((Zpos (XO (XI (XO (XI (XO
-    XH)))))) :: ((Zpos (XI (XI (XO (XI (XO XH)))))) :: ((Zpos (XO (XO (XI (XI
-    (XO XH)))))) :: ((Zpos (XI (XO (XI (XI (XO XH)))))) :: ((Zpos (XO (XI (XI
-    (XI (XO XH)))))) :: ((Zpos (XI (XI (XI (XI (XO XH)))))) :: ((Zpos (XO (XO
-    (XO (XO (XI XH)))))) :: ((Zpos (XI (XO (XO (XO (XI XH)))))) :: ((Zpos (XO
-    (XI (XO (XO (XI XH)))))) :: ((Zpos (XI (XI (XO (XO (XI XH)))))) :: ((Zneg
-    XH) :: ((Zneg XH) :: ((Zneg XH) :: ((Zneg XH) :: ((Zneg XH) :: ((Zneg
-    XH) :: ((Zneg XH) :: ((Zneg XH) :: ((Zneg XH) :: ((Zneg XH) :: ((Zneg
-    XH) :: ((Zneg XH) :: ((Zneg XH) :: ((Zneg XH) :: ((Zneg XH) :: ((Zneg
-    XH) :: ((Zneg XH) :: ((Zneg XH) :: ((Zneg XH) :: ((Zneg XH) :: ((Zneg
-    XH) :: ((Zneg XH) :: ((Zneg XH) :: ((Zneg XH) :: ((Zneg XH) :: ((Zneg
-    XH) :: ((Zneg XH) :: ((Zneg XH) :: ((Zneg XH) :: ((Zneg XH) :: ((Zneg
-    XH) :: ((Zneg XH) :: ((Zneg XH) :: ((Zneg XH) :: ((Zneg XH) :: ((Zneg
-    XH) :: ((Zneg XH) :: ((Zneg XH) :: ((Zneg XH) :: ((Zneg XH) :: ((Zneg
-    XH) :: ((Zneg XH) :: ((Zneg XH) :: ((Zneg XH) :: ((Zneg XH) :: ((Zneg
-    XH) :: ((Zneg XH) :: ((Zneg XH) :: ((Zneg XH) :: ((Zneg XH) :: ((Zneg
-    XH) :: ((Zneg XH) :: ((Zneg XH) :: ((Zneg XH) :: ((Zneg XH) :: ((Zneg
-    XH) :: ((Zneg XH) :: ((Zneg XH) :: ((Zneg XH) :: ((Zneg XH) :: ((Zneg
-    XH) :: ((Zneg XH) :: ((Zneg XH) :: ((Zneg XH) :: ((Zneg XH) :: ((Zneg
-    XH) :: ((Zneg XH) :: ((Zneg XH) :: ((Zneg XH) :: ((Zneg XH) :: ((Zneg
-    XH) :: ((Zneg XH) :: ((Zneg XH) :: ((Zneg XH) :: ((Zneg XH) :: ((Zneg
-    XH) :: ((Zneg XH) :: ((Zneg XH) :: ((Zneg XH) :: ((Zneg XH) :: ((Zneg
-    XH) :: ((Zneg XH) :: ((Zneg XH) :: ((Zneg XH) :: ((Zneg XH) :: ((Zneg
-    XH) :: ((Zneg XH) :: ((Zneg XH) :: ((Zneg XH) :: ((Zneg XH) :: ((Zneg
-    XH) :: ((Zneg XH) :: ((Zneg XH) :: ((Zneg XH) :: ((Zneg XH) :: ((Zneg
-    XH) :: ((Zneg XH) :: ((Zneg XH) :: ((Zneg XH) :: ((Zneg XH) :: ((Zneg
-    XH) :: ((Zneg XH) :: ((Zneg XH) :: ((Zneg XH) :: ((Zneg XH) :: ((Zneg
-    XH) :: ((Zneg XH) :: ((Zneg XH) :: ((Zneg XH) :: ((Zneg XH) :: ((Zneg
-    XH) :: ((Zneg XH) :: ((Zneg XH) :: ((Zneg XH) :: ((Zneg XH) :: ((Zneg
-    XH) :: ((Zneg XH) :: ((Zneg XH) :: ((Zneg XH) :: ((Zneg XH) :: ((Zneg
-    XH) :: ((Zneg XH) :: ((Zneg XH) :: ((Zneg XH) :: ((Zneg XH) :: ((Zneg
-    XH) :: ((Zneg XH) :: ((Zneg XH) :: ((Zneg XH) :: ((Zneg XH) :: ((Zneg
-    XH) :: ((Zneg XH) :: ((Zneg
-    XH) :: [])))))))))))))))))))))))))))))))))))))))))))))))))))))))))))))))))))))))))))))))))))))))))))))))))))))))))))))))))))))))))))))))))))))))))))))))))))))))))))))))))))))))))))))))))))))))))))))))))))))))))))))))))))))))))))))))))))))))))))))))))))))))))))))))
+let bZ_FINISH =
+  Zpos (XO XH)
 
-(** val enc_val0 : z **)
+(** val bZ_RUN : z **)
 
-let enc_val0 =
+let bZ_RUN =
   Z0
 
-(** val enc_valb0 : z **)
+(** val bZ_STREAM_END : z **)
 
-let enc_valb0 =
-  Zneg (XO (XI XH))
-
-(** val enc_shift : z **)
-
-let enc_shift =
-  Zpos (XO (XO (XO XH)))
-
-(** val enc_valb_add : z **)
-
-let enc_valb_add =
-  Zpos (XO (XO (XO XH)))
-
-(** val enc_loop_bound : z **)
-
-let enc_loop_bound =
-  Z0
-
-(** val enc_mask : z **)
-
-let enc_mask =
-  Zpos (XI (XI (XI (XI (XI XH)))))
-
-(** val enc_valb_sub : z **)
-
-let enc_valb_sub =
-  Zpos (XO (XI XH))
-
-(** val enc_tail_bound : z **)
-
-let enc_tail_bound =
-  Zneg (XO (XI XH))
-
-(** val enc_tail_shl : z **)
-
-let enc_tail_shl =
-  Zpos (XO (XO (XO XH)))
-
-(** val enc_tail_add : z **)
-
-let enc_tail_add =
-  Zpos (XO (XO (XO XH)))
-
-(** val enc_tail_mask : z **)
-
-let enc_tail_mask =
-  Zpos (XI (XI (XI (XI (XI XH)))))
-
-(** val enc_pad_mod : z **)
-
-let enc_pad_mod =
+let bZ_STREAM_END =
   Zpos (XO (XO XH))
 
-(** val pad_char : z **)
+(** val lZMA_FINISH : z **)
 
-let pad_char =
-  Zpos (XI (XO (XI (XI (XI XH)))))
+let lZMA_FINISH =
+  Zpos (XI XH)
 
-(** val dec_val0 : z **)
+(** val lZMA_RUN : z **)
 
-let dec_val0 =
+let lZMA_RUN =
   Z0
 
-(** val dec_valb0 : z **)
+(** val lZMA_STREAM_END : z **)
 
-let dec_valb0 =
-  Zneg (XO (XO (XO XH)))
+let lZMA_STREAM_END =
+  Zpos XH
 
-(** val dec_pad_char : z **)
+(** val z_FINISH : z **)
 
-let dec_pad_char =
-  Zpos (XI (XO (XI (XI (XI XH)))))
+let z_FINISH =
+  Zpos (XO (XO XH))
 
-(** val dec_reject : z **)
+(** val z_NO_FLUSH : z **)
 
-let dec_reject =
-  Zneg XH
-
-(** val dec_shift : z **)
-
-let dec_shift =
-  Zpos (XO (XI XH))
-
-(** val dec_valb_add : z **)
-
-let dec_valb_add =
-  Zpos (XO (XI XH))
-
-(** val dec_out_bound : z **)
-
-let dec_out_bound =
+let z_NO_FLUSH =
   Z0
 
-(** val dec_mask : z **)
+(** val z_OK : z **)
 
-let dec_mask =
-  Zpos (XI (XI (XI (XI (XI (XI (XI XH)))))))
+let z_OK =
+  Z0
 
-(** val dec_valb_sub : z **)
+(** val gz_read_continue : z list **)
 
-let dec_valb_sub =
-  Zpos (XO (XO (XO XH)))
+let gz_read_continue =
+  Z0 :: []
 
-(** val tbl : z -> z **)
+(** val gz_read_end : z list **)
 
-let tbl i =
-  nth (Z.to_nat i) tABLE Z0
+let gz_read_end =
+  (Zpos XH) :: []
 
-(** val inv : z -> z **)
+(** val gz_finish_done : z list **)
 
-let inv c =
-  nth (Z.to_nat c) iNV_TABLE Z0
+let gz_finish_done =
+  (Zpos XH) :: []
 
-(** val sel : z -> z -> z -> z **)
+(** val gz_finish_again : z list **)
 
-let sel val0 valb mask =
-  Z.coq_land (Z.shiftr val0 valb) mask
+let gz_finish_again =
+  Z0 :: ((Zneg (XI (XO XH))) :: [])
 
-(** val enc_drain : nat -> z -> z -> (z list * z) option **)
+(** val bz_fine : z list **)
 
-let rec enc_drain fuel val0 valb =
-  if Z.geb valb enc_loop_bound
+let bz_fine =
+  Z0 :: ((Zpos XH) :: [])
+
+(** val bz_finish_done : z list **)
+
+let bz_finish_done =
+  (Zpos (XO (XO XH))) :: []
+
+(** val bz_finish_again : z list **)
+
+let bz_finish_again =
+  (Zpos (XI XH)) :: []
+
+(** val xz_fine : z list **)
+
+let xz_fine =
+  Z0 :: []
+
+(** val len : 'a1 list -> n **)
+
+let len l =
+  N.of_nat (length l)
+
+(** val takeN : n -> 'a1 list -> 'a1 list **)
+
+let takeN n0 l =
+  firstn (N.to_nat n0) l
+
+(** val dropN : n -> 'a1 list -> 'a1 list **)
+
+let dropN n0 l =
+  skipn (N.to_nat n0) l
+
+(** val is_nil : 'a1 list -> bool **)
+
+let is_nil = function
+| [] -> true
+| _ :: _ -> false
+
+type kind =
+| KGz
+| KBz
+| KXz
+
+(** val mem : z -> z list -> bool **)
+
+let mem x l =
+  existsb (Z.eqb x) l
+
+(** val starts_with : z list -> z list -> bool **)
+
+let rec starts_with p l =
+  match p with
+  | [] -> true
+  | a :: p' ->
+    (match l with
+     | [] -> false
+     | b :: l' -> (&&) (Z.eqb a b) (starts_with p' l'))
+
+(** val detect_magic : z list -> kind option **)
+
+let detect_magic h =
+  if starts_with gz_magic h
+  then Some KGz
+  else if starts_with bz_magic h
+       then Some KBz
+       else if starts_with xz_magic h then Some KXz else None
+
+type frags = z list list
+
+(** val partial_read : frags -> n -> z list * frags **)
+
+let rec partial_read f n0 =
+  match f with
+  | [] -> ([], [])
+  | fr :: r ->
+    (match fr with
+     | [] -> partial_read r n0
+     | _ :: _ ->
+       if N.ltb n0 (len fr)
+       then ((takeN n0 fr), ((dropN n0 fr) :: r))
+       else (fr, r))
+
+(** val read_or_eof_loop : nat -> frags -> n -> z list * frags **)
+
+let rec read_or_eof_loop fuel f n0 =
+  match fuel with
+  | O -> ([], f)
+  | S k ->
+    if N.eqb n0 N0
+    then ([], f)
+    else let (got, f') = partial_read f n0 in
+         (match got with
+          | [] -> ([], f')
+          | _ :: _ ->
+            let (more, f'') = read_or_eof_loop k f' (N.sub n0 (len got)) in
+            ((app got more), f''))
+
+(** val read_or_eof : frags -> n -> z list * frags **)
+
+let read_or_eof f n0 =
+  read_or_eof_loop (N.to_nat n0) f n0
+
+type 's cres = { c_st : 's; c_used : n; c_out : z list; c_rc : z }
+
+type pstep =
+| PContinue
+| PEnd
+| PThrow
+
+(** val process_read : kind -> z -> bool -> bool -> pstep **)
+
+let process_read k rc no_input no_output =
+  match k with
+  | KGz ->
+    if mem rc gz_read_continue
+    then PContinue
+    else if mem rc gz_read_end then PEnd else PThrow
+  | KBz ->
+    if Z.eqb rc bZ_STREAM_END
+    then PEnd
+    else if mem rc bz_fine
+         then if (&&) ((&&) bz_read_stall_check no_input) no_output
+              then PThrow
+              else PContinue
+         else PThrow
+  | KXz ->
+    if Z.eqb rc lZMA_STREAM_END
+    then PEnd
+    else if mem rc xz_fine then PContinue else PThrow
+
+(** val read_action : kind -> bool -> z **)
+
+let read_action k fin =
+  match k with
+  | KXz -> if fin then lZMA_FINISH else lZMA_RUN
+  | _ -> Z0
+
+type rerr =
+| EGz
+| EBz
+| EXz
+| ECompressed
+| EHang
+
+(** val err_of : kind -> rerr **)
+
+let err_of = function
+| KGz -> EGz
+| KBz -> EBz
+| KXz -> EXz
+
+type 'dstate reader =
+| RComplete
+| RPlain
+| RHeader of z list
+| RStream of kind * 'dstate * z list * bool
+
+type ('world, 'dstate) rstate = { r_file : frags; r_world : 'world;
+                                  r_rd : 'dstate reader }
+
+type ('world, 'dstate) rres =
+| ROk of z list * ('world, 'dstate) rstate
+| RErr of rerr
+
+(** val read_factory :
+    ('a1 -> kind -> 'a2 * 'a1) -> frags -> 'a1 -> z list -> bool -> (('a2
+    reader * frags) * 'a1) option **)
+
+let read_factory dnew f w already require =
+  if N.ltb (len already) kMagicSize
+  then let (got, f') = read_or_eof f (N.sub kMagicSize (len already)) in
+       let header = app already got in
+       (match header with
+        | [] -> Some ((RComplete, f'), w)
+        | _ :: _ ->
+          (match detect_magic header with
+           | Some k ->
+             let (st, w') = dnew w k in
+             Some (((RStream (k, st, header, false)), f'), w')
+           | None ->
+             if require then None else Some (((RHeader header), f'), w)))
+  else (match already with
+        | [] -> Some ((RComplete, f), w)
+        | _ :: _ ->
+          (match detect_magic already with
+           | Some k ->
+             let (st, w') = dnew w k in
+             Some (((RStream (k, st, already, false)), f), w')
+           | None ->
+             if require then None else Some (((RHeader already), f), w)))
+
+(** val rd :
+    ('a1 -> kind -> 'a2 * 'a1) -> (kind -> 'a2 -> z -> z list -> n -> 'a2
+    cres) -> nat -> ('a1, 'a2) rstate -> n -> ('a1, 'a2) rres **)
+
+let rec rd dnew dcall fuel s amount =
+  match s.r_rd with
+  | RComplete -> ROk ([], s)
+  | RPlain ->
+    let (got, f') = partial_read s.r_file amount in
+    ROk (got, { r_file = f'; r_world = s.r_world; r_rd = RPlain })
+  | RHeader buf ->
+    let sending = N.min amount (len buf) in
+    let rest = dropN sending buf in
+    ROk ((takeN sending buf), { r_file = s.r_file; r_world = s.r_world;
+    r_rd = (match rest with
+            | [] -> RPlain
+            | _ :: _ -> RHeader rest) })
+  | RStream (k, st, inbuf, fin) ->
+    if N.eqb amount N0
+    then ROk ([], s)
+    else (match fuel with
+          | O -> RErr EHang
+          | S fuel' ->
+            (match inbuf with
+             | [] ->
+               let (got, f') = read_or_eof s.r_file kInputBuffer in
+               let p = (got, f') in
+               let fin1 =
+                 (||) fin (match k with
+                           | KXz -> is_nil got
+                           | _ -> false)
+               in
+               let (inbuf1, f1) = p in
+               let cap =
+                 match k with
+                 | KXz -> amount
+                 | _ -> N.min kSizeMax amount
+               in
+               let r = dcall k st (read_action k fin1) inbuf1 cap in
+               let inbuf2 = dropN r.c_used inbuf1 in
+               let out = r.c_out in
+               (match process_read k r.c_rc (is_nil inbuf1) (is_nil out) with
+                | PContinue ->
+                  let s1 = { r_file = f1; r_world = s.r_world; r_rd =
+                    (RStream (k, r.c_st, inbuf2, fin1)) }
+                  in
+                  (match out with
+                   | [] -> rd dnew dcall fuel' s1 amount
+                   | _ :: _ -> ROk (out, s1))
+                | PEnd ->
+                  (match read_factory dnew f1 s.r_world inbuf2 true with
+                   | Some p0 ->
+                     let (p1, w2) = p0 in
+                     let (rdr, f2) = p1 in
+                     let s2 = { r_file = f2; r_world = w2; r_rd = rdr } in
+                     (match out with
+                      | [] -> rd dnew dcall fuel' s2 amount
+                      | _ :: _ -> ROk (out, s2))
+                   | None -> RErr ECompressed)
+                | PThrow -> RErr (err_of k))
+             | _ :: _ ->
+               let p = (inbuf, s.r_file) in
+               let (inbuf1, f1) = p in
+               let cap =
+                 match k with
+                 | KXz -> amount
+                 | _ -> N.min kSizeMax amount
+               in
+               let r = dcall k st (read_action k fin) inbuf1 cap in
+               let inbuf2 = dropN r.c_used inbuf1 in
+               let out = r.c_out in
+               (match process_read k r.c_rc (is_nil inbuf1) (is_nil out) with
+                | PContinue ->
+                  let s1 = { r_file = f1; r_world = s.r_world; r_rd =
+                    (RStream (k, r.c_st, inbuf2, fin)) }
+                  in
+                  (match out with
+                   | [] -> rd dnew dcall fuel' s1 amount
+                   | _ :: _ -> ROk (out, s1))
+                | PEnd ->
+                  (match read_factory dnew f1 s.r_world inbuf2 true with
+                   | Some p0 ->
+                     let (p1, w2) = p0 in
+                     let (rdr, f2) = p1 in
+                     let s2 = { r_file = f2; r_world = w2; r_rd = rdr } in
+                     (match out with
+                      | [] -> rd dnew dcall fuel' s2 amount
+                      | _ :: _ -> ROk (out, s2))
+                   | None -> RErr ECompressed)
+                | PThrow -> RErr (err_of k))))
+
+(** val rc_open :
+    ('a1 -> kind -> 'a2 * 'a1) -> frags -> 'a1 -> ('a1, 'a2) rstate option **)
+
+let rc_open dnew f w =
+  match read_factory dnew f w [] false with
+  | Some p ->
+    let (p0, w1) = p in
+    let (rdr, f1) = p0 in Some { r_file = f1; r_world = w1; r_rd = rdr }
+  | None -> None
+
+type allres =
+| AOk of z list * n list
+| AErr of rerr * z list * n list
+
+(** val read_all :
+    ('a1 -> kind -> 'a2 * 'a1) -> (kind -> 'a2 -> z -> z list -> n -> 'a2
+    cres) -> nat -> nat -> ('a1, 'a2) rstate -> (nat -> n) -> nat -> allres **)
+
+let rec read_all dnew dcall n0 fuel s amt i =
+  match n0 with
+  | O -> AErr (EHang, [], [])
+  | S n' ->
+    (match rd dnew dcall fuel s (amt i) with
+     | ROk (out, s') ->
+       (match out with
+        | [] -> AOk ([], (N0 :: []))
+        | _ :: _ ->
+          (match read_all dnew dcall n' fuel s' amt (S i) with
+           | AOk (d, z0) -> AOk ((app out d), ((len out) :: z0))
+           | AErr (e, d, z0) -> AErr (e, (app out d), ((len out) :: z0))))
+     | RErr e -> AErr (e, [], []))
+
+(** val read_file :
+    ('a1 -> kind -> 'a2 * 'a1) -> (kind -> 'a2 -> z -> z list -> n -> 'a2
+    cres) -> nat -> nat -> frags -> 'a1 -> (nat -> n) -> allres **)
+
+let read_file dnew dcall n0 fuel f w amt =
+  match rc_open dnew f w with
+  | Some s -> read_all dnew dcall n0 fuel s amt O
+  | None -> AErr (ECompressed, [], [])
+
+(** val min_output : kind -> n **)
+
+let min_output = function
+| KGz -> gz_kMinOutput
+| _ -> bz_kMinOutput
+
+(** val buf_size : kind -> n **)
+
+let buf_size k =
+  N.max (min_output k) compressed_buffer
+
+(** val run_flag : kind -> z **)
+
+let run_flag = function
+| KGz -> z_NO_FLUSH
+| _ -> bZ_RUN
+
+(** val finish_flag : kind -> z **)
+
+let finish_flag = function
+| KGz -> z_FINISH
+| _ -> bZ_FINISH
+
+(** val run_ok : kind -> z -> bool **)
+
+let run_ok k rc =
+  match k with
+  | KGz -> Z.eqb rc z_OK
+  | _ -> mem rc bz_fine
+
+type fstep =
+| FDone
+| FAgain
+| FThrow
+
+(** val finish_step : kind -> z -> fstep **)
+
+let finish_step k rc =
+  match k with
+  | KGz ->
+    if mem rc gz_finish_done
+    then FDone
+    else if mem rc gz_finish_again then FAgain else FThrow
+  | _ ->
+    if mem rc bz_finish_done
+    then FDone
+    else if mem rc bz_finish_again then FAgain else FThrow
+
+type wop =
+| OpWrite of z list
+| OpFlush
+
+(** val op_data : wop -> z list **)
+
+let op_data = function
+| OpWrite d -> d
+| OpFlush -> []
+
+type 'estate wstate = { w_file : z list; w_buf : z list; w_est : 'estate;
+                        w_dirty : bool }
+
+type 'estate wres =
+| WOk of 'estate wstate
+| WErr of bool
+
+(** val avail_out : kind -> 'a1 wstate -> n **)
+
+let avail_out k s =
+  N.sub (buf_size k) (len s.w_buf)
+
+(** val ensure_output : kind -> 'a1 wstate -> 'a1 wstate **)
+
+let ensure_output k s =
+  if N.ltb (avail_out k s) (min_output k)
+  then { w_file = (app s.w_file s.w_buf); w_buf = []; w_est = s.w_est;
+         w_dirty = s.w_dirty }
+  else s
+
+(** val write_loop :
+    (kind -> 'a1 -> z -> z list -> n -> 'a1 cres) -> nat -> kind -> 'a1
+    wstate -> z list -> 'a1 wres **)
+
+let rec write_loop ecall fuel k s inp = match inp with
+| [] -> WOk s
+| _ :: _ ->
+  (match fuel with
+   | O -> WErr true
+   | S f ->
+     let s1 = ensure_output k s in
+     let r = ecall k s1.w_est (run_flag k) inp (avail_out k s1) in
+     if run_ok k r.c_rc
+     then write_loop ecall f k { w_file = s1.w_file; w_buf =
+            (app s1.w_buf r.c_out); w_est = r.c_st; w_dirty = s1.w_dirty }
+            (dropN r.c_used inp)
+     else WErr false)
+
+(** val ws_write :
+    (kind -> 'a1 -> z -> z list -> n -> 'a1 cres) -> nat -> kind -> 'a1
+    wstate -> z list -> 'a1 wres **)
+
+let ws_write ecall fuel k s data =
+  match write_loop ecall fuel k s data with
+  | WOk s' ->
+    WOk { w_file = s'.w_file; w_buf = s'.w_buf; w_est = s'.w_est; w_dirty =
+      true }
+  | WErr hang -> WErr hang
+
+(** val flush_loop :
+    (kind -> 'a1 -> z -> z list -> n -> 'a1 cres) -> nat -> kind -> 'a1
+    wstate -> 'a1 wres **)
+
+let rec flush_loop ecall fuel k s =
+  match fuel with
+  | O -> WErr true
+  | S f ->
+    let s1 = ensure_output k s in
+    let r = ecall k s1.w_est (finish_flag k) [] (avail_out k s1) in
+    let s2 = { w_file = s1.w_file; w_buf = (app s1.w_buf r.c_out); w_est =
+      r.c_st; w_dirty = s1.w_dirty }
+    in
+    (match finish_step k r.c_rc with
+     | FDone -> WOk s2
+     | FAgain -> flush_loop ecall f k s2
+     | FThrow -> WErr false)
+
+(** val ws_flush :
+    (kind -> 'a1 -> 'a1) -> (kind -> 'a1 -> z -> z list -> n -> 'a1 cres) ->
+    nat -> kind -> 'a1 wstate -> 'a1 wres **)
+
+let ws_flush ereset ecall fuel k s =
+  if s.w_dirty
+  then (match flush_loop ecall fuel k s with
+        | WOk s2 ->
+          WOk { w_file = (app s2.w_file s2.w_buf); w_buf = []; w_est =
+            (ereset k s2.w_est); w_dirty = false }
+        | WErr hang -> WErr hang)
+  else WOk s
+
+(** val run_ops :
+    (kind -> 'a1 -> 'a1) -> (kind -> 'a1 -> z -> z list -> n -> 'a1 cres) ->
+    nat -> kind -> 'a1 wstate -> wop list -> 'a1 wres **)
+
+let rec run_ops ereset ecall fuel k s = function
+| [] -> WOk s
+| op :: r ->
+  (match match op with
+         | OpWrite d -> ws_write ecall fuel k s d
+         | OpFlush -> ws_flush ereset ecall fuel k s with
+   | WOk s' -> run_ops ereset ecall fuel k s' r
+   | WErr hang -> WErr hang)
+
+type fileres =
+| FileOk of z list
+| FileErr of bool
+
+(** val write_session :
+    ('a1 -> kind -> 'a2 * 'a1) -> (kind -> 'a2 -> 'a2) -> (kind -> 'a2 -> z
+    -> z list -> n -> 'a2 cres) -> nat -> kind -> 'a1 -> wop list -> fileres **)
+
+let write_session enew ereset ecall fuel k w ops =
+  let (est, _) = enew w k in
+  (match run_ops ereset ecall fuel k { w_file = []; w_buf = []; w_est = est;
+           w_dirty = dirty_initial } ops with
+   | WOk s ->
+     (match ws_flush ereset ecall fuel k s with
+      | WOk s' -> FileOk s'.w_file
+      | WErr h -> FileErr h)
+   | WErr h -> FileErr h)
+
+(** val gzc_ensure : z list -> n -> n **)
+
+let gzc_ensure out size =
+  if N.ltb (N.sub size (len out)) gz_kMinOutput
+  then N.add size gzc_increment
+  else size
+
+(** val gzc_pre :
+    (kind -> 'a1 -> z -> z list -> n -> 'a1 cres) -> nat -> 'a1 -> z list ->
+    z list -> n -> ((('a1 * z list) * z list) * n) option option **)
+
+let rec gzc_pre ecall fuel est inp out size =
+  if N.ltb (N.sub size (len out)) gz_kMinOutput
   then (match fuel with
         | O -> None
         | S f ->
-          (match enc_drain f val0 (Z.sub valb enc_valb_sub) with
-           | Some p ->
-             let (o, vb) = p in
-             Some (((tbl (sel val0 valb enc_mask)) :: o), vb)
-           | None -> None))
-  else Some ([], valb)
+          let size1 = gzc_ensure out size in
+          let r =
+            ecall KGz est z_NO_FLUSH inp
+              (N.min kSizeMax (N.sub size1 (len out)))
+          in
+          if run_ok KGz r.c_rc
+          then gzc_pre ecall f r.c_st (dropN r.c_used inp) (app out r.c_out)
+                 size1
+          else Some None)
+  else Some (Some (((est, inp), out), size))
 
-(** val drain_fuel : nat **)
+(** val gzc_finish :
+    (kind -> 'a1 -> z -> z list -> n -> 'a1 cres) -> nat -> 'a1 -> z list ->
+    z list -> n -> fileres **)
 
-let drain_fuel =
-  S (S (S (S (S (S (S (S O)))))))
-
-(** val enc_bytes : z list -> z -> z -> ((z list * z) * z) option **)
-
-let rec enc_bytes bs val0 valb =
-  match bs with
-  | [] -> Some (([], val0), valb)
-  | c :: r ->
-    let val' = wrap32 (Z.add (Z.mul val0 (Z.pow (Zpos (XO XH)) enc_shift)) c)
+let rec gzc_finish ecall fuel est inp out size =
+  match fuel with
+  | O -> FileErr true
+  | S f ->
+    let size1 = gzc_ensure out size in
+    let r =
+      ecall KGz est z_FINISH inp (N.min kSizeMax (N.sub size1 (len out)))
     in
-    (match enc_drain drain_fuel val' (Z.add valb enc_valb_add) with
-     | Some p ->
-       let (o, vb) = p in
-       (match enc_bytes r val' vb with
-        | Some p0 ->
-          let (p1, b) = p0 in let (o2, v) = p1 in Some (((app o o2), v), b)
-        | None -> None)
-     | None -> None)
+    (match finish_step KGz r.c_rc with
+     | FDone -> FileOk (app out r.c_out)
+     | FAgain ->
+       gzc_finish ecall f r.c_st (dropN r.c_used inp) (app out r.c_out) size1
+     | FThrow -> FileErr false)
 
-(** val enc_pad : nat -> z list **)
+(** val gz_compress :
+    ('a1 -> kind -> 'a2 * 'a1) -> (kind -> 'a2 -> z -> z list -> n -> 'a2
+    cres) -> nat -> 'a1 -> z list -> fileres **)
 
-let enc_pad n0 =
-  repeat pad_char
-    (Z.to_nat
-      (Z.modulo (Z.sub enc_pad_mod (Z.modulo (Z.of_nat n0) enc_pad_mod))
-        enc_pad_mod))
+let gz_compress enew ecall fuel w from =
+  let (est, _) = enew w KGz in
+  (match gzc_pre ecall fuel est from [] gzc_initial with
+   | Some o ->
+     (match o with
+      | Some p ->
+        let (p0, size1) = p in
+        let (p1, out1) = p0 in
+        let (est1, inp1) = p1 in gzc_finish ecall fuel est1 inp1 out1 size1
+      | None -> FileErr false)
+   | None -> FileErr true)
 
-(** val base64_encode : z list -> z list option **)
+(** val write_plain : wop list -> z list **)
 
-let base64_encode bs =
-  match enc_bytes bs enc_val0 enc_valb0 with
-  | Some p ->
-    let (p0, valb) = p in
-    let (o, val0) = p0 in
-    let o' =
-      if Z.gtb valb enc_tail_bound
-      then app o
-             ((tbl
-                (sel
-                  (wrap32 (Z.mul val0 (Z.pow (Zpos (XO XH)) enc_tail_shl)))
-                  (Z.add valb enc_tail_add) enc_tail_mask)) :: [])
-      else o
-    in
-    Some (app o' (enc_pad (length o')))
-  | None -> None
-
-type dres =
-| DOk of z list
-| DBadChar of z
-| DLengthError
-
-(** val count_padding_rev : z list -> nat **)
-
-let rec count_padding_rev = function
-| [] -> O
-| c :: r' ->
-  if Z.eqb c (Zpos (XI (XO (XI (XI (XI XH))))))
-  then S (count_padding_rev r')
-  else O
-
-(** val count_padding : z list -> nat **)
-
-let count_padding cs =
-  count_padding_rev (rev cs)
-
-(** val dec_loop : z list -> z -> z -> dres **)
-
-let rec dec_loop cs val0 valb =
-  match cs with
-  | [] -> DOk []
-  | c :: r ->
-    if Z.eqb c dec_pad_char
-    then DOk []
-    else if Z.eqb (inv c) dec_reject
-         then DBadChar c
-         else let val' =
-                wrap32
-                  (Z.add (Z.mul val0 (Z.pow (Zpos (XO XH)) dec_shift))
-                    (inv c))
-              in
-              let valb' = Z.add valb dec_valb_add in
-              if Z.geb valb' dec_out_bound
-              then (match dec_loop r val' (Z.sub valb' dec_valb_sub) with
-                    | DOk o -> DOk ((sel val' valb' dec_mask) :: o)
-                    | x -> x)
-              else dec_loop r val' valb'
-
-(** val base64_decode : z list -> dres **)
-
-let base64_decode cs =
-  if Z.ltb
-       (Z.div (Z.mul (Z.of_nat (length cs)) (Zpos (XI XH))) (Zpos (XO (XO
-         XH)))) (Z.of_nat (count_padding cs))
-  then DLengthError
-  else dec_loop cs dec_val0 dec_valb0
-
-(** val b64_alphabet : z list **)
-
-let b64_alphabet =
-  map Z.of_nat
-    (app
-      (seq (S (S (S (S (S (S (S (S (S (S (S (S (S (S (S (S (S (S (S (S (S (S
-        (S (S (S (S (S (S (S (S (S (S (S (S (S (S (S (S (S (S (S (S (S (S (S
-        (S (S (S (S (S (S (S (S (S (S (S (S (S (S (S (S (S (S (S (S
-        O))))))))))))))))))))))))))))))))))))))))))))))))))))))))))))))))) (S
-        (S (S (S (S (S (S (S (S (S (S (S (S (S (S (S (S (S (S (S (S (S (S (S
-        (S (S O)))))))))))))))))))))))))))
-      (app
-        (seq (S (S (S (S (S (S (S (S (S (S (S (S (S (S (S (S (S (S (S (S (S
-          (S (S (S (S (S (S (S (S (S (S (S (S (S (S (S (S (S (S (S (S (S (S
-          (S (S (S (S (S (S (S (S (S (S (S (S (S (S (S (S (S (S (S (S (S (S
-          (S (S (S (S (S (S (S (S (S (S (S (S (S (S (S (S (S (S (S (S (S (S
-          (S (S (S (S (S (S (S (S (S (S
-          O)))))))))))))))))))))))))))))))))))))))))))))))))))))))))))))))))))))))))))))))))))))))))))))))))
-          (S (S (S (S (S (S (S (S (S (S (S (S (S (S (S (S (S (S (S (S (S (S
-          (S (S (S (S O)))))))))))))))))))))))))))
-        (app
-          (seq (S (S (S (S (S (S (S (S (S (S (S (S (S (S (S (S (S (S (S (S (S
-            (S (S (S (S (S (S (S (S (S (S (S (S (S (S (S (S (S (S (S (S (S (S
-            (S (S (S (S (S O))))))))))))))))))))))))))))))))))))))))))))))))
-            (S (S (S (S (S (S (S (S (S (S O))))))))))) ((S (S (S (S (S (S (S
-          (S (S (S (S (S (S (S (S (S (S (S (S (S (S (S (S (S (S (S (S (S (S
-          (S (S (S (S (S (S (S (S (S (S (S (S (S (S
-          O))))))))))))))))))))))))))))))))))))))))))) :: ((S (S (S (S (S (S
-          (S (S (S (S (S (S (S (S (S (S (S (S (S (S (S (S (S (S (S (S (S (S
-          (S (S (S (S (S (S (S (S (S (S (S (S (S (S (S (S (S (S (S
-          O))))))))))))))))))))))))))))))))))))))))))))))) :: [])))))
-
-(** val alpha : z -> z **)
-
-let alpha i =
-  nth (Z.to_nat i) b64_alphabet Z0
-
-(** val rfc4648 : z list -> z list **)
-
-let rec rfc4648 = function
-| [] -> []
-| b0 :: l ->
-  (match l with
-   | [] ->
-     (alpha (Z.div b0 (Zpos (XO (XO XH))))) :: ((alpha
-                                                  (Z.mul
-                                                    (Z.modulo b0 (Zpos (XO
-                                                      (XO XH)))) (Zpos (XO
-                                                    (XO (XO (XO XH))))))) :: ((Zpos
-       (XI (XO (XI (XI (XI XH)))))) :: ((Zpos (XI (XO (XI (XI (XI
-       XH)))))) :: [])))
-   | b1 :: l0 ->
-     (match l0 with
-      | [] ->
-        (alpha (Z.div b0 (Zpos (XO (XO XH))))) :: ((alpha
-                                                     (Z.add
-                                                       (Z.mul
-                                                         (Z.modulo b0 (Zpos
-                                                           (XO (XO XH))))
-                                                         (Zpos (XO (XO (XO
-                                                         (XO XH))))))
-                                                       (Z.div b1 (Zpos (XO
-                                                         (XO (XO (XO XH)))))))) :: (
-          (alpha
-            (Z.mul (Z.modulo b1 (Zpos (XO (XO (XO (XO XH)))))) (Zpos (XO (XO
-              XH))))) :: ((Zpos (XI (XO (XI (XI (XI XH)))))) :: [])))
-      | b2 :: r ->
-        app
-          ((alpha (Z.div b0 (Zpos (XO (XO XH))))) :: ((alpha
-                                                        (Z.add
-                                                          (Z.mul
-                                                            (Z.modulo b0
-                                                              (Zpos (XO (XO
-                                                              XH)))) (Zpos
-                                                            (XO (XO (XO (XO
-                                                            XH))))))
-                                                          (Z.div b1 (Zpos (XO
-                                                            (XO (XO (XO
-                                                            XH)))))))) :: (
-          (alpha
-            (Z.add
-              (Z.mul (Z.modulo b1 (Zpos (XO (XO (XO (XO XH)))))) (Zpos (XO
-                (XO XH)))) (Z.div b2 (Zpos (XO (XO (XO (XO (XO (XO XH)))))))))) :: (
-          (alpha (Z.modulo b2 (Zpos (XO (XO (XO (XO (XO (XO XH))))))))) :: []))))
-          (rfc4648 r)))
-
-(** val strip_padding : z list -> z list **)
-
-let strip_padding cs =
-  rev (skipn (count_padding cs) (rev cs))
+let write_plain ops =
+  flat_map op_data ops
